@@ -160,6 +160,14 @@ def render_forwarding(o, i, fl, placement):
         else:
             gen = 'for %s in ({},)' % vk if vk and (fl['uvk'] or not va) else 'for %s in ((),)' % va
             L += ['    return [%s %s]' % (call_text('inner', o, fl), gen), '']
+    elif placement in ('auto_nested_def_own_stars', 'auto_nested_async_own_stars'):
+        # a nested function with star parameters OF ITS OWN spelled like the wrapper's forwards those: the wrapper itself forwards nothing
+        va = next((p['n'] for p in o if p['k'] == 'var'), 'args')
+        vk = next((p['n'] for p in o if p['k'] == 'vkw'), 'kwargs')
+        kw = 'async def' if placement == 'auto_nested_async_own_stars' else 'def'
+        L += ['def inner(%s):' % absig.render_params(i), '    return locals()',
+              'def w(%s):' % absig.render_params(o),
+              '    %s helper(*%s, **%s):' % (kw, va, vk), '        return inner(*%s, **%s)' % (va, vk), '    return None', '']
     elif placement == 'auto_class_call':
         # the subject is a CLASS whose instances forward when called: calling the class runs the constructor (which takes nothing here),
         # whatever __call__ would accept
